@@ -12,6 +12,8 @@
 (*   Probe    no buffer the pool hands out is still held: queued but not       *)
 (*            dequeued, or in a worker that has not finished decoding and      *)
 (*            encoding it (NoUseAfterPut)                                      *)
+(*   MirOut   a copy queued for the mirror workers is a received datagram in a   *)
+(*            buffer that is not one the pipeline still holds                    *)
 (*   Gone     a worker told to quit (dynamic workers) leaves without a datagram *)
 (*   End      the decoded counter equals the datagrams decoded; every datagram *)
 (*            that yields data was published exactly once (AtMostOnce,         *)
@@ -55,6 +57,9 @@ TConsume == /\ Is("Consume") /\ mq # <<>> /\ Ev.p = Head(mq)
 Held == {q[i].b : i \in 1..Len(q)} \cup {wk[w].b : w \in {x \in DOMAIN wk : wk[x].gate \in {"Deq", "Dec"}}}
 TProbe == /\ Is("Probe") /\ {Ev.got[i] : i \in 1..Len(Ev.got)} \cap Held = {}
           /\ UNCHANGED <<q, wk, mq, consumed, decs, expect>>
+(* mirroring: a copy handed to the mirror workers is a received datagram, in a buffer of its own *)
+TMirOut == /\ Is("MirOut") /\ F(Ev, "n", 0) = 1 /\ Ev.b \notin Held
+           /\ UNCHANGED <<q, wk, mq, consumed, decs, expect>>
 TEnd == /\ Is("End") /\ F(Ev, "n", 0) = decs /\ mq = <<>> /\ q = <<>>
         /\ \A a, c \in 1..Len(consumed) : a # c => consumed[a] # consumed[c]
         /\ {consumed[a] : a \in 1..Len(consumed)} = expect
@@ -63,7 +68,7 @@ TEnd == /\ Is("End") /\ F(Ev, "n", 0) = decs /\ mq = <<>> /\ q = <<>>
 TRetire == Is("Retire") /\ UNCHANGED <<q, wk, mq, consumed, decs, expect>>
 TGone == /\ Is("Gone") /\ W(Ev.w).gate \in {"Top", "none"}
          /\ wk' = Put(wk, Ev.w, Idle) /\ UNCHANGED <<q, mq, consumed, decs, expect>>
-TraceNext == TRetire \/ TGone \/ TReset \/ TRecv \/ TDeq \/ TDec \/ TMar \/ TTop \/ TConsume \/ TProbe \/ TEnd
+TraceNext == TMirOut \/ TRetire \/ TGone \/ TReset \/ TRecv \/ TDeq \/ TDec \/ TMar \/ TTop \/ TConsume \/ TProbe \/ TEnd
 TraceSpec == TraceInit /\ [][TraceNext]_tvars
 Mark == TLCSet(1, IF TLCGet(1) < l THEN l ELSE TLCGet(1))
 Accepted == \/ TLCGet(1) = Len(Trace) + 1
